@@ -141,11 +141,33 @@ RelApplicable(r, cfg, o) == /\ o.present /\ Unmodified(cfg) /\ ~o.off
                             /\ \A k \in DOMAIN Rels[r].terms : AsDim(o.pd[k]) = FormDim(Rels[r].form, RefDim(Rels[r].terms[k][1]))
 C15_Relation(r, cfg, o) == RelApplicable(r, cfg, o) => (o.exc = "" /\ o.homog /\ o.fu <= Derived /\ o.fm <= Derived)
 
+\* the same identity read as ONE quotient of two commensurable quantities: (product of the factors with positive exponent) /
+\* (product of the others), and the pure number consumed the way programs do (float(), .value, a ufunc of a pure number).
+\* Demanded where both sides exist; the participants may wear different guises (X_mks against Y_cgs) as long as every one has
+\* the dimension of the relation's form.
+TwoSided(r) == (\E k \in DOMAIN Rels[r].terms : Rels[r].terms[k][2] > 0) /\ (\E k \in DOMAIN Rels[r].terms : Rels[r].terms[k][2] < 0)
+C15_RelationQuotient(r, cfg, o) == (RelApplicable(r, cfg, o) /\ TwoSided(r)) => (o.qexc = "" /\ o.fqv <= Derived)
+
 \* ---- a name that is both a constant and a unit
 UnitDemanded(n, cfg) == QOf(n) > 0 /\ Quants[QOf(n)].unit_enum /\ Unmodified(cfg)
 \* (a Gaussian guise is compared with the SI unit through the CGS<->SI route; the harness reports that deviation)
 UnitAgrees(o) == (o.ud = o.cd \/ AsDim(o.cd) = GaussDim(AsDim(o.ud)) \/ AsDim(o.ud) = GaussDim(AsDim(o.cd))) /\ o.f <= Same
 C15_ConstEqualsUnit(n, cfg, o) == (o.present /\ UnitDemanded(n, cfg)) => UnitAgrees(o)
+
+\* ---- the constants of two configurations against each other (round 7)
+\* X built for configuration A and X built for configuration B are both the default X, hence one quantity: expressed in
+\* the unit B's constant shows (the Unit OBJECT it carries, bound to B's registry), A's constant shows B's number - whatever
+\* call form does the conversion (to / in_units / to_value / convert_to_units on a copy / coercion into one array), their
+\* quotient is the pure number 1, their difference vanishes, allclose_units / np.isclose accept.  Demanded where neither
+\* registry rescaled a symbol the constant's unit string mentions and both objects carry one dimension (an SI and a
+\* Gaussian guise are different dimensions by design).  unyt refuses to subtract temperatures given in different units.
+PureTemp(d) == d[4] # 0 /\ \A i \in 1..NDim : i # 4 => d[i] = 0
+PairNumForms == {"to", "in_units", "to_value", "convert", "arr", "div", "sub"}
+PairBoolForms == {"allclose", "isclose"}
+PairForms == PairNumForms \cup PairBoolForms
+PairApplicable(n, A, B, form, o) == /\ o.pa /\ o.pb /\ ~Mentions(RowOf(n), A) /\ ~Mentions(RowOf(n), B)
+                                    /\ o.da = o.db /\ ~(form = "sub" /\ PureTemp(DefDim(n)))
+C15_CrossAgree(n, A, B, form, o) == PairApplicable(n, A, B, form, o) => ((o.o = "num" /\ o.f <= Same) \/ (o.o = "bool" /\ o.b))
 
 \* ---- literature
 C15_LitDim(q, o) == o.present => AsDim(o.dv) = RefDim(q)
